@@ -6,6 +6,7 @@ static uv::Cmd cmds[] = {
 	{"trace", cmd_trace},
 	{"serial", cmd_serial},
 	{"api", cmd_api},
+	{"dq", cmd_dq},
 	{"json", cmd_json},
 	{"promela", cmd_promela},
 	{"lua", cmd_lua},
